@@ -151,8 +151,8 @@ def jobs(tier):
                        "appending a copy of a positive example never lowers its log-odds (float tolerance 1e-12)".format(3 if tier == "quick" else 4),
                 functions=[fn_id(train_naive_bayes), fn_id(CTParsePipeline.fit), fn_id(CTParsePipeline.predict_log_proba)],
                 stubs=["code untraced; corpus indices and labels symbolic (solver covers every combination)"], site="train_naive_bayes"),
-            Job("C17.DATASET", HN, "ob_dataset", timeout=1200, lift="lift_dataset",
-                bounds="stream of 0..2 candidates (7 resolution values of all three kinds by index, production length 1..3, spans symbolic 0..9), optional leading None; one or two entries with the same text and different reference times (scripted parser depends on ts); gold by index",
+            Job("C17.DATASET", HN, "ob_dataset", timeout=1800, path_timeout=60,
+                bounds="stream of 0..2 candidates (4 resolution values of all three kinds, production length 1..3, candidate spans always different from the gold's; indices symbolic, builder untraced), optional leading None; one or two entries with the same text and different reference times (scripted parser depends on ts); gold by index",
                 functions=[fn_id(CO.make_partial_rule_dataset)], stubs=["ctparse_gen replaced by a scripted stream"], site="make_partial_rule_dataset")]
 
 
